@@ -86,12 +86,12 @@ class FsRun:
         self.nsteps = 0
 
     # -------------------------------------------------------------- traced phase
-    def begin(self):
+    def begin(self, resolvable=True):
         s = self.sess
         self.sched = Sched([s.root, s.extdir])
         snap = s.project()
         s.prev = snap
-        self.events.append({"ev": "begin", "snap": self._snap(snap)})
+        self.events.append({"ev": "begin", "snap": self._snap(snap), "resolvable": bool(resolvable)})
 
     def _snap(self, st):
         return {k: st[k] for k in ("buckets", "store", "ext", "tmp", "hasIndex")}
@@ -119,6 +119,7 @@ class FsRun:
             ev = {"ev": "sys", "p": i, "ret": r["done"]["ret"], "faulted": bool(r["done"].get("faulted")),
                   "action": action or "step", "count": call.get("count", -1), "flags": call.get("flags", 0)}
             ev.update(call_class(s.root, s.extdir, call))
+            ev["tmpfull"] = self._tmpfull(i, ev, call)
             ev["snap"] = self._snap(snap)
             if snap["other"]:
                 ev["other"] = snap["other"]
@@ -134,6 +135,28 @@ class FsRun:
         if r.get("exited") is not None and self.procs[i]["res"] is None:
             self.procs[i]["res"] = self._result(i, r["exited"])
             self.events.append({"ev": "result", "p": i, "res": self.procs[i]["res"], "exit": r["exited"]})
+
+    def _tmpfull(self, i, ev, call):
+        """fullness of process i's temp file now: -1 none, 0 empty, 1 partial, 2 the complete data"""
+        pr = self.procs[i]
+        if ev["area"] == "tmp" and ev["file"] and ev["name"] in ("openat", "open", "creat", "openat2") \
+                and ev["mut"] and ev["ret"] >= 0:
+            pr["tmp_path"] = call["path"]
+        tp = pr.get("tmp_path")
+        if not tp:
+            return -1
+        try:
+            with open(tp, "rb") as f:
+                data = f.read()
+        except OSError:
+            return -1
+        if not data:
+            want = self.sess.u.blobs.get(pr["sop"].get("data", ""), None)
+            return 2 if (want is not None and want.len == 0) else 0
+        want = self.sess.u.blobs.get(pr["sop"].get("data", ""), None)
+        if want is not None and len(data) == want.len and data == want.bytes():
+            return 2
+        return 1
 
     def _result(self, i, code):
         """abstract result of process i's last request (what the public call returned)"""
@@ -255,6 +278,8 @@ def reqs_for(sess, st):
         reqs.append({"op": "w_commit", "h": 1})
         sop["streamed"] = True
         sop["declared"] = st.get("size") is not None
+        if st.get("size") is not None and st["size"] != blob.len:
+            sop["reject"] = True
         return reqs, sop
     if op == "read":
         sop = {"op": "read"}
